@@ -75,6 +75,7 @@ func main() {
 	r.FloorNontrivial(int64(r.Pick(1500, 30000)))
 	r.FloorCount("reads", int64(r.Pick(8000, 150000)))
 	r.FloorCount("streams_multi_message", int64(r.Pick(40, 500)))
+	r.FloorCount("streams_walked_again", int64(r.Pick(1000, 15000)))
 	r.FloorCount("grpc_streams", int64(r.Pick(40, 300)))
 	r.FloorCount("view_streams_overlapping_writes", int64(r.Pick(2, 20)))
 	r.Finish()
@@ -345,7 +346,7 @@ func runFSM(r *ev.Run, id caseID) {
 				return
 			}
 			// other requests are served between opening the stream and producing its first message
-			chunks, err := t.StreamDeferred(req, func() {
+			chunks, again, err := t.StreamRewalk(req, func() {
 				_, _ = t.Range(&pb.RequestOp_Range{Key: []byte("zz-other-key")})
 				_, _ = t.Range(&pb.RequestOp_Range{Key: []byte("a-other"), RangeEnd: []byte("b-other")})
 				_, _ = t.Txn(&pb.TxnRequest{Compare: []*pb.Compare{{Key: []byte("other-cmp")}}})
@@ -378,6 +379,22 @@ func runFSM(r *ev.Run, id caseID) {
 			}
 			if nm >= 2 {
 				r.Count("streams_multi_message", 1)
+			}
+			// the same sequence walked again (after a walk that stopped at its first message): the table
+			// did not change, so it must describe the same read
+			r.Count("streams_walked_again", 1)
+			if req.RangeEnd == nil {
+				if len(again) != 1 {
+					sw = fmt.Sprintf("single-key stream delivered %d messages", len(again))
+				} else {
+					sw, _ = judge.Range(req, full, again[0])
+				}
+			} else {
+				sw, _ = judgeStream(req, full, again)
+			}
+			if sw != "" {
+				r.Violation("stream-rewalk-mismatch", "second complete walk of the same sequence: "+sw+" @ stream "+w.Request, w)
+				return
 			}
 			l := int(req.Limit)
 			if (len(full) >= 1 && l >= len(full)-1 && l <= len(full)+1 && l > 0) || nm >= 2 {
